@@ -1,9 +1,12 @@
 (* The unit clause that Cnf::from pushes, [tseitin_index - 1], is the literal of the ROOT node.
    This is not immediate: the root's literal is the last allocated variable only if neither the
    root nor the single-child chain below it is answered from the operation cache.  The argument is
-   syntactic: mu (number of leaves of the tree unfolding) is a function of a node's literal
-   (ToCnfInv.Mu), every node is below the root (all_reachable), so a node with the same mu as the
-   root lies on the chain root, root-1, ... of single-child nodes. *)
+   syntactic: mu (size of the tree unfolding: leaves, constants and nodes with <> 1 children) is
+   a function of a node's literal (ToCnfInv.Mu), strictly larger at a node with <> 1 children than
+   at its children; every node is below the root (all_reachable), so a node with the same mu as
+   the root lies on the chain root, root-1, ... of single-child nodes.  Constants and childless
+   operations (repair F20) are nodes of size 1 that allocate (or share) a variable like any other
+   operation: a circuit whose root chain ends in a constant consists of that chain only. *)
 From Coq Require Import List ZArith Bool Lia.
 From DD Require Import Model.Circuit Model.ToCnf Proofs.PassLemmas Proofs.Semantics
   Proofs.ToCnfBase Proofs.ToCnfInv.
@@ -64,12 +67,23 @@ Qed.
 Lemma last_varss_root (C : circuit) : last (varss C) [] = nth (root C) (varss C) [].
 Proof. unfold root. rewrite last_nth. unfold varss. now rewrite pass_length. Qed.
 
+(* what the C19 theorems need of the C01 bundle WF: non-empty, children before parents, the
+   variables below the root are exactly 1..n.  Decomposability, smoothness and determinism matter
+   only for root_count = number of models (ToCnfCount.final_count). *)
+Definition CWF (C : circuit) (n : nat) : Prop :=
+  C <> [] /\ idx_ok C = true /\ complete C n = true.
+Lemma cwf_nonempty C n : CWF C n -> C <> []. Proof. now intros [H _]. Qed.
+Lemma cwf_idx C n : CWF C n -> idx_ok C = true. Proof. now intros [_ [H _]]. Qed.
+Lemma cwf_complete C n : CWF C n -> complete C n = true. Proof. now intros [_ [_ H]]. Qed.
+Lemma WF_CWF C n : WF C n -> CWF C n.
+Proof. intros H. split; [exact (wf_nonempty C n H)|split; [exact (wf_idx C n H)|exact (wf_complete C n H)]]. Qed.
+
 Lemma wf_lits_ok (C : circuit) (n : nat) :
-  WF C n -> all_reachable C = true -> lits_ok n C.
+  CWF C n -> all_reachable C = true -> lits_ok n C.
 Proof.
-  intros HWF Hr l Hl. pose proof (wf_idx C n HWF) as Hok.
+  intros HWF Hr l Hl. pose proof (cwf_idx C n HWF) as Hok.
   destruct (In_nth C (Lit l) FalseN Hl) as [j [Hj Hnth]].
-  pose proof (complete_range C n (wf_complete C n HWF)) as HV. rewrite last_varss_root in HV.
+  pose proof (complete_range C n (cwf_complete C n HWF)) as HV. rewrite last_varss_root in HV.
   assert (Hin : In (Z.abs l) (nth (root C) (varss C) [])).
   { apply (vars_below_root C Hok Hr (root C) j); [lia|unfold root; lia|].
     rewrite (varss_unfold C Hok j Hj []), Hnth. now left. }
@@ -82,17 +96,6 @@ Lemma musum_in C j cs : In j cs -> (mu C j <= musum C cs)%nat.
 Proof.
   induction cs as [|c cs IH]; [intros []|]. cbn [musum fold_right]. intros [->|H]; [lia|].
   specialize (IH H). unfold musum in IH. lia.
-Qed.
-
-Lemma musum_in_strict C j cs :
-  In j cs -> (2 <= length cs)%nat -> (forall c, In c cs -> (1 <= mu C c)%nat) ->
-  (mu C j < musum C cs)%nat.
-Proof.
-  destruct cs as [|c1 [|c2 cs]]; cbn [length]; try lia. intros Hin _ Hpos.
-  cbn [musum fold_right].
-  pose proof (Hpos c1 (or_introl eq_refl)). pose proof (Hpos c2 (or_intror (or_introl eq_refl))).
-  destruct Hin as [->|[->|Hin]]; try lia.
-  pose proof (musum_in C j cs Hin). unfold musum in H1. lia.
 Qed.
 
 Section Root.
@@ -118,15 +121,11 @@ Lemma mu_edge p j :
   ((mu C j = mu C p) -> exists op, node_op (nth p C FalseN) = Some (op, [j])).
 Proof.
   intros Hp Hc. destruct (children_op _ _ Hc) as [op [cs [Hop Hin]]].
-  rewrite (mu_op C p op cs Hok Hp Hop). split; [now apply musum_in|].
-  intros E. exists op. rewrite Hop.
+  rewrite (mu_op C p op cs Hok Hp Hop).
   destruct cs as [|c1 [|c2 cs]]; [destruct Hin| |].
-  - destruct Hin as [->|[]]. reflexivity.
-  - exfalso. assert (mu C j < musum C (c1 :: c2 :: cs))%nat; [|lia].
-    apply musum_in_strict; [exact Hin|cbn; lia|].
-    intros c Hcc. apply (mu_pos n C st HM).
-    assert (c < p)%nat; [|lia]. apply (idx_ok_nth C p FalseN Hok Hp).
-    now rewrite (node_op_children _ _ _ Hop).
+  - destruct Hin as [->|[]]. cbn [mu_cs]. split; [lia|]. intros _. exists op. exact Hop.
+  - pose proof (musum_in C j (c1 :: c2 :: cs) Hin) as Hle. cbn [mu_cs]. split; [lia|].
+    intros E. exfalso. lia.
 Qed.
 
 Lemma mu_le_root : forall d j, (root C - j <= d)%nat -> (j <= root C)%nat -> (mu C j <= mu C (root C))%nat.
